@@ -285,7 +285,19 @@ def rule_R1(ctx):
     # regcomp adds its own instructions
     rc = prog.func("regcomp", file="regex.c")
     bld, bcall = _regcomp_builder(prog)
-    own = len(list(rc.calls("re_insert"))) + (len(list(bld.calls("re_insert"))) if bld is not rc else 0)
+    def inserts(g, depth=0):
+        """instructions that g appends itself: re_insert calls, also through small helpers"""
+        k_ = 0
+        for c_ in g.calls():
+            if c_.get("fn") == "re_insert":
+                k_ += 1
+            elif c_.get("fn") and c_["fn"] != "rnode_emit" and depth < 2:
+                h_ = prog.resolve(g, c_["fn"])
+                if h_ is not None and h_.file == g.file and h_ is not g and h_ is not rc and h_ is not bld and \
+                        not any(x["k"] in ("while", "for", "do") for x in h_.walk()):
+                    k_ += inserts(h_, depth + 1)
+        return k_
+    own = inserts(rc) + (inserts(bld) if bld is not rc else 0)
     extra = None
     nvar = None
     for n, lv, op, rhs in stores(rc.body):
@@ -312,11 +324,18 @@ def rule_R1(ctx):
             if key(strip_casts(a_)) == nvar:
                 cnt_name = p_["name"]
     ok_alloc = False
-    for c in bld.calls("malloc"):
-        a0 = strip_casts(c["args"][0])
-        if cnt_name and a0["k"] == "bin" and a0["op"] == "*" and any(
-                r_["name"] == cnt_name for r_ in refs(a0)):
-            ok_alloc = True
+    allocs = [(bld, cnt_name)]
+    for c in rc.calls():
+        h_ = prog.resolve(rc, c["fn"]) if c.get("fn") else None
+        if h_ is not None and h_.file == rc.file and h_ is not bld and any(True for _ in h_.calls("malloc")):
+            for p_, a_ in zip(h_.params, c["args"]):
+                if key(strip_casts(a_)) == nvar:
+                    allocs.append((h_, p_["name"]))
+    for g_, nm_ in allocs:
+        for c in g_.calls("malloc"):
+            a0 = strip_casts(c["args"][0])
+            if nm_ and a0["k"] == "bin" and a0["op"] == "*" and any(r_["name"] == nm_ for r_ in refs(a0)):
+                ok_alloc = True
     if ok_alloc:
         ctx.ok(bld.name, "program allocated with the estimate")
     else:
@@ -900,6 +919,10 @@ def rule_R11(ctx):
     prog = ctx.prog
     rc = prog.func("regcomp", file="regex.c")
     patp = rc.params[1]["name"]
+    for c_ in rc.calls("rnode_parse"):          # the parse cursor: what the parser advances
+        a_ = strip_casts(c_["args"][0])
+        if a_["k"] == "un" and a_["op"] == "&" and a_["e"]["k"] == "ref":
+            patp = a_["e"]["name"]
     # (a) success only with *pat == 0
     n_ok = 0
     bad = None
